@@ -22,7 +22,7 @@ from .sym import T
 from .values import Adt, Ref, Seq, Slice, Cell, FnItem, Opaque, MOVED, UNINIT, unit
 from .machine import Unsupported, Panic, Infeasible, make_box, box_ref, last_seg
 from .intrinsics import (I, some, none, ok, err, ready, pending, tuple_, deref_val, clone_value, is_variant, qualified)
-from .lib_tokio import sched
+from .lib_tokio import sched, ReadyFut
 from .lib_std import seq_of, value_eq
 
 # ----------------------------------------------------------------------------
@@ -82,6 +82,22 @@ def _inv_amount(m, args, ci):
     inv = deref_val(args[0])
     return none() if inv.amount is None else some(inv.amount)
 
+@I.rx(r'(^|::)Bolt11Invoice::(min_final_cltv_expiry_delta|expiry_time|duration_since_epoch|timestamp|is_expired)$')
+def _inv_misc_attr(m, args, ci):
+    """Further observable attributes of an invoice: uninterpreted functions of its identity (consistent per invoice)."""
+    inv = deref_val(args[0])
+    meth = ci.name.rsplit('::', 1)[1]
+    ident = inv.ident if isinstance(inv.ident, T) else sym.var('invoice!%r' % (inv.ident,))
+    v = sym.uf('inv_' + meth, 'I', ident)
+    if meth == 'min_final_cltv_expiry_delta':
+        m.pc.append(sym.and_(sym.ge(v, 0), sym.le(v, 2 ** 64 - 1)))
+        return v
+    if meth == 'is_expired':
+        return m.branch(sym.eq(v, 1), 'invoice.is_expired')
+    m.pc.append(sym.and_(sym.ge(v, 0), sym.le(v, 2 ** 63 - 1)))
+    from .lib_std import dur, NANOS
+    return dur(sym.mul(v, NANOS))
+
 @I.rx(r'(^|::)Bolt11Invoice::check_signature$')
 def _inv_check_sig(m, args, ci):
     inv = deref_val(args[0])
@@ -119,6 +135,17 @@ def _hash_bytes(m, args, ci):
     if ci.name.endswith(('as_ref', 'borrow', 'deref', 'as_byte_array')):
         return Slice(s) if not ci.name.endswith('as_byte_array') else Ref(Cell(s), 'v')
     return s
+
+@I.rx(r'^<(.*::)?(Hash|Sha256) as ([\w:]*::)?Hash>::(from_slice|from_byte_array|from_bytes_ref)$|(^|::)(Hash|Sha256)::(from_slice|from_byte_array)$')
+def _hash_from_bytes(m, args, ci):
+    """A hash value from its 32 bytes: the bytes of a hash are known only by identity (tag = the hash term)."""
+    v = deref_val(args[0]) if isinstance(args[0], Ref) else args[0]
+    sq = seq_of(v)[0] if isinstance(v, (Seq, Slice)) else None
+    tag = getattr(sq, 'tag', None)
+    if tag is None:
+        raise Unsupported('hash from bytes that are not the bytes of a known hash: %r' % (v,))
+    hv = hash_value(tag)
+    return ok(hv) if ci.name.endswith('from_slice') else hv
 
 @I.rx(r'^<(.*::)?(Hash|Sha256) as (hex::)?ToHex>::encode_hex$|^hex::encode$|^<.* as (hex::)?ToHex>::encode_hex$')
 def _encode_hex(m, args, ci):
@@ -168,13 +195,25 @@ def enum_unit(m, ty, variant):
     e = m.reg.enum_def(ty)
     return Adt(e.full if e else ty, variant, {})
 
+# Where the node boundary sits.  'low' (default): the crate's own src/rpc.rs wrapper (`impl ClnRpc for Rpc`) runs from
+# MIR and the boundary is cln_rpc::ClnRpc::{new, call_typed}; 'high': `<Rpc as ClnRpc>::method` itself is the boundary
+# (the wrapper is then a contract: it forwards the request and the answer unchanged).
+import os as _os
+LOW_BOUNDARY = _os.environ.get('VERIF_RPC_BOUNDARY', 'low') != 'high'
+
 def rpc_error(m, code, kind='Rpc'):
-    """crate::rpc::RpcError::Rpc(cln_rpc::RpcError{code,..}) or ::General(anyhow)."""
-    if kind == 'General':
+    """High boundary: crate::rpc::RpcError::Rpc(cln_rpc::RpcError{code,..}) or ::General(anyhow).
+    Low boundary: what cln_rpc::ClnRpc::call_typed returns, a cln_rpc::RpcError -- an error of the node (with its code)
+    or a lost / unreadable answer (kind 'General': no code); the crate's own From impls wrap it."""
+    if kind == 'General' and not LOW_BOUNDARY:
         return Adt('rpc::RpcError', 'General', {0: Opaque('anyhow', 'transport')})
+    if kind == 'General':
+        code = None
     inner = Adt('cln_rpc::primitives::RpcError', None,
                 {0: none() if code is None else some(code), 1: Seq([], 'str', tag=('rpcmsg', code)), 2: none()},
                 ['code', 'message', 'data'])
+    if LOW_BOUNDARY:
+        return inner
     return Adt('rpc::RpcError', 'Rpc', {0: inner})
 
 # ----------------------------------------------------------------------------
@@ -276,7 +315,54 @@ class NodeEnv:
     # ---- boundary --------------------------------------------------------------
     RPC_RE = re.compile(r'^<(R|Rpc|rpc::Rpc) as (rpc::)?ClnRpc>::(datastore|get_info|listdatastore|listsendpays|pay|waitsendpay)$')
 
+    LOW_NEW_RE = re.compile(r'^(cln_rpc::)?ClnRpc::new$')
+    LOW_CALL_RE = re.compile(r'^(cln_rpc::)?ClnRpc::call_typed$')
+    REQ_METHOD = {'DatastoreRequest': 'datastore', 'GetinfoRequest': 'get_info', 'ListdatastoreRequest': 'listdatastore',
+                  'ListsendpaysRequest': 'listsendpays', 'PayRequest': 'pay', 'WaitsendpayRequest': 'waitsendpay'}
+    WRAPPER_RE = re.compile(r'::(datastore|get_info|listdatastore|listsendpays|pay|waitsendpay)::\{closure#0\}$')
+
     def intercept(self, m, name, raw, args):
+        if LOW_BOUNDARY:
+            if self.LOW_NEW_RE.match(name):
+                # connecting to lightning-rpc: succeeds, or (a fault of kind 'General', within the fault budget, for the
+                # methods faults are enabled for) fails -- the only source of the crate's RpcError::General
+                method = None
+                for fr in reversed(m.cur):
+                    w = self.WRAPPER_RE.search(fr)
+                    if w:
+                        method = w.group(1)
+                        break
+                if (self.faults_used < self.fault_budget and method in self.fault_methods
+                        and any(k == 'General' for _c, k in self.fault_codes)):
+                    if m.choose(2, 'connect-fault?%s' % method) == 1:
+                        self.faults_used += 1
+                        m.event('rpc_fault', -1, method, None, 'Connect')
+                        self.log.append((method, 'FAULT', 'connect'))
+                        return (ReadyFut(err(Opaque('anyhow', 'connect'))),)
+                return (ReadyFut(ok(Adt('cln_rpc::ClnRpc', None, {0: Opaque('conn')}))),)
+            if self.LOW_CALL_RE.match(name):
+                req = args[1] if len(args) > 1 else None
+                if isinstance(req, Ref):
+                    req = clone_value(m, req.get())
+                method = self.REQ_METHOD.get(last_seg(req.ty) if isinstance(req, Adt) else '')
+                if method is None:
+                    raise Unsupported('call_typed with request %r' % (req,))
+                if method == 'get_info':
+                    req = None
+                tid = sched(m).cur if m.st.sched is not None and m.st.sched.cur is not None else 99
+                k = self.call_seq.get(tid, 0)
+                self.call_seq[tid] = k + 1
+                c = Call(tid * 100 + k, method, req, None)
+                self.calls.add(c)
+                return (RpcFut(c),)
+            mm = self.RPC_RE.match(name)
+            if mm:
+                # `R: ClnRpc` in generic code is always the crate's Rpc: run its wrapper
+                b = m.prog.keys.get('<Rpc as ClnRpc>::%s' % mm.group(3))
+                if b is None:
+                    raise Unsupported('no body for <Rpc as ClnRpc>::%s' % mm.group(3))
+                return (m.call_body(b, args),)
+            return None
         mm = self.RPC_RE.match(name)
         if mm:
             method = mm.group(3)
@@ -303,7 +389,15 @@ class NodeEnv:
             if c.method == 'waitsendpay':
                 p = self.find_part(m, c)
                 if p is not None and p.status == 'pending':
-                    continue         # blocks until the part resolves
+                    # blocks until the part resolves -- unless the request carries a timeout: then the node may answer
+                    # "timed out" (code 200) at any moment while the part is still pending
+                    try:
+                        has_to = is_variant(field(m, c.args, 'timeout'), 'Some')
+                    except Exception:
+                        has_to = False
+                    if has_to:
+                        out.append(('lin waitsendpay#%d' % c.cid, self._lin_wait_timeout(c.cid)))
+                    continue
             if c.method == 'pay':
                 out.extend(self.pay_transitions(m, c))
                 continue
@@ -315,6 +409,16 @@ class NodeEnv:
                 if getattr(self, 'parts_can_fail', True):
                     out.append(('part%d->failed' % p.pid, self._resolve(p.pid, 'failed')))
         return out
+
+    def _lin_wait_timeout(self, cid):
+        def f(m):
+            env = m.st.env
+            c = env.calls[cid]
+            env.log.append(('waitsendpay', None, 'timeout', 200))
+            c.info['timeout_answer'] = True
+            m.event('waitsendpay_timeout', cid)
+            env.finish(m, c, err(rpc_error(m, 200)))
+        return f
 
     def _lin(self, cid):
         def f(m):
